@@ -181,7 +181,43 @@ func actEncode(e *Env, a J) J {
 	if err == nil {
 		o["wire"] = octOf(b)
 	}
+	// fields of a value the wire format has no place for cannot influence its encoding: the same message with something
+	// left in them (a variable-length value on a TV attribute, a value on an absent attribute) encodes to the same octets,
+	// or is refused
+	o["junkok"] = true
+	if m2, err2 := buildMsg(gj(a, "msg")); err2 == nil && err == nil && junkify(m2) {
+		if b2, e2 := m2.Encode(); e2 == nil && string(b2) != string(b) {
+			o["junkok"] = false
+		}
+	}
 	return o
+}
+
+// junkify fills the don't-care fields of SA transforms; false if the message has none.
+func junkify(m *message.IKEMessage) bool {
+	any := false
+	for _, p := range m.Payloads {
+		sa, ok := p.(*message.SecurityAssociation)
+		if !ok {
+			continue
+		}
+		for _, pr := range sa.Proposals {
+			for _, tc := range []message.TransformContainer{pr.EncryptionAlgorithm, pr.PseudorandomFunction, pr.IntegrityAlgorithm, pr.DiffieHellmanGroup, pr.ExtendedSequenceNumbers} {
+				for _, t := range tc {
+					any = true
+					switch {
+					case !t.AttributePresent:
+						t.AttributeFormat, t.AttributeType, t.AttributeValue, t.VariableLengthAttributeValue = 1, 14, 256, []byte{9, 9, 9}
+					case t.AttributeFormat == message.AttributeFormatUseTV:
+						t.VariableLengthAttributeValue = []byte{7, 7, 7, 7, 7}
+					default:
+						t.AttributeValue = 0x1234
+					}
+				}
+			}
+		}
+	}
+	return any
 }
 
 func actEncodeChain(e *Env, a J) J {
